@@ -923,6 +923,26 @@ func genStore(c *Ctx, profile string) {
 				ops = append(ops, g.queries(len(ops), nops)...)
 			}
 		}
+		if (profile == "c14" || profile == "c04") && c.Rng.Intn(2) == 0 {
+			// identifiers that are handed out by a write which stores no NEW entity (an update that adds a
+			// reference to a never-seen target through a never-seen predicate), then a restart, then their first use
+			ds := g.dss[0]
+			k := c.Rng.Intn(1000)
+			fresh, pred := fmt.Sprintf("ns3:fresh%d", k), fmt.Sprintf("ns3:newp%d", k)
+			upd := M{"id": "ns3:e1", "deleted": false, "props": M{"ns3:p0": 2000 + k}, "refs": M{pred: fresh}}
+			ops = append(ops, M{"op": "store", "ds": ds, "ents": []M{{"id": "ns3:e1", "deleted": false, "props": M{"ns3:p0": 1000 + k}, "refs": M{}}}})
+			if c.Rng.Intn(3) != 0 {
+				ops = append(ops, M{"op": "txn", "parts": []M{{"ds": ds, "ents": []M{upd}}}})
+			} else {
+				ops = append(ops, M{"op": "store", "ds": ds, "ents": []M{upd}})
+			}
+			ops = append(ops, M{"op": "reopen"},
+				M{"op": "q", "q": "related", "start": "ns3:e1", "pred": "*", "inverse": false, "scope": []string{}, "limit": 0},
+				M{"op": "store", "ds": ds, "ents": []M{{"id": fresh, "deleted": false, "props": M{"ns3:p0": 3000 + k}, "refs": M{}}}},
+				M{"op": "q", "q": "related", "start": fresh, "pred": pred, "inverse": true, "scope": []string{}, "limit": 0},
+				M{"op": "q", "q": "entity", "id": fresh, "scope": []string{ds}},
+				M{"op": "q", "q": "entity", "id": "ns3:e1", "scope": []string{ds}})
+		}
 		if profile == "c18" {
 			doHist(c, M{"ops": withMsRuns(c, g, ops), "jobs": true})
 			continue
